@@ -108,7 +108,7 @@ func replaceLaws(re *regexp2.Regexp, gt *ref.GroupTable, s, repl string, startAt
 		if mon.ResourceErr(err) {
 			return "", "find-" + mon.ErrClass(err), 0
 		}
-		return "", "find-error", 0
+		return fmt.Sprintf("Replace(%q, %q, %d, %d) succeeded but enumerating the matches from the same start fails: %v", s, repl, startAt, count, err), "", 0
 	}
 	expand := func(fm foldMatch) string {
 		return ref.Expand(repl, gt, &ref.MatchView{Input: runes, Index: fm.idx, Length: fm.length, Groups: fm.groups})
